@@ -13,39 +13,31 @@
  * store sub-views of it in the aws_uri.  Their contracts are therefore stated relative to S = old(str->ptr), N =
  * old(str->len): every view they store is S[a, a+n) with a+n <= N, and the cursor afterwards is S[k, N).
  * s_init_from_uri_str (unit init_from_uri_str) supplies "the cursor is a suffix of uri->uri_str", which makes every view
- * a view into the URI's own copy of the text. */
-
-/* ---- libc memchr: ASSUMED contract (glibc's memchr is not examined), used as memchr/uri_memchr_contract.
- * Result = the FIRST occurrence.  g_m is an arbitrary index into the searched range ("no c before the result" for that
- * one index); g_first[c] records the index of the latest result for character c, NONE if absent (ghost "Skolem" output:
- * lets the callers' contracts say "the first ':' is at ..." in both directions). */
-#define NONE SIZE_MAX
-size_t g_m;
-size_t g_first[256];
-#define FIRST(c) (g_first[(uint8_t)(c)])
-void *uri_memchr_contract(const void *s, int c, size_t n)
-__CPROVER_requires(n == 0 || __CPROVER_r_ok(s, n))
-__CPROVER_assigns(g_first[(uint8_t)c])
-__CPROVER_ensures(RET == NULL ==> g_first[(uint8_t)c] == NONE && (g_m < n ==> ((const uint8_t *)s)[g_m] != (uint8_t)c))
-__CPROVER_ensures(RET != NULL ==> g_first[(uint8_t)c] < n && PEQ(RET, (void *)((const uint8_t *)s + g_first[(uint8_t)c])) &&
-                  ((const uint8_t *)s)[g_first[(uint8_t)c]] == (uint8_t)c &&
-                  (g_m < g_first[(uint8_t)c] ==> ((const uint8_t *)s)[g_m] != (uint8_t)c))
-;
+ * a view into the URI's own copy of the text.
+ *
+ * Component boundaries are "the first delimiter" facts.  They are stated through the searches the code performs: the
+ * ASSUMED model of libc memchr (contracts/uri.h, VERIF_URI_MEMCHR_MODEL) logs every search (character, start, length,
+ * result = index of the FIRST occurrence or NONE) in the ghost log g_mc[]; the postconditions say which searches must
+ * have been made, over exactly which ranges, and how the stored views follow from their results.  This keeps symbolic
+ * reads of the text out of the clauses (each distinct symbolic index into an object of symbolic size costs about 10^5
+ * SAT variables, and they multiply), and is exact in both directions (found / not found). */
+/* search number k looked for character ch in S[off, off+n) */
+#define MC_IS(k, ch, off, n) (g_mc[k].c == (ch) && g_mc[k].s == S_ + (off) && g_mc[k].len == (n))
+#define MC(k) (g_mc[k].res)
 
 /* ---- decimal parser of the port, used as aws_byte_cursor_utf8_parse_u64/uri_parse_u64_contract: the VALUE is abstracted
  * (ghost outcome g_pu_ok / g_pu_val chosen by the harness, i.e. arbitrary); the contract records which text was handed
  * over (g_pu_ptr, g_pu_len).  The real function has its own contract and unit in C01; the numeric value of a port is
  * checked end to end by the bounded units of C13. */
-bool g_pu_ok; uint64_t g_pu_val; size_t g_pu_len, g_pu_calls; const uint8_t *g_pu_ptr;
 int uri_parse_u64_contract(struct aws_byte_cursor cursor, uint64_t *dst)
 __CPROVER_requires(cursor.len == 0 || __CPROVER_r_ok(cursor.ptr, cursor.len))
 __CPROVER_requires(__CPROVER_w_ok(dst, sizeof(*dst)))
-__CPROVER_assigns(*dst, g_pu_ptr, g_pu_len, g_pu_calls)
-__CPROVER_assigns(!g_pu_ok : g_last_error, g_raise_count)
-__CPROVER_ensures(g_pu_calls == OLD(g_pu_calls) + 1 && g_pu_len == cursor.len && g_pu_ptr == cursor.ptr)
-__CPROVER_ensures(RET == (g_pu_ok ? AWS_OP_SUCCESS : AWS_OP_ERR))
-__CPROVER_ensures(g_pu_ok ==> *dst == g_pu_val)
-__CPROVER_ensures(!g_pu_ok ==> g_raise_count == OLD(g_raise_count) + 1)
+__CPROVER_assigns(*dst, g_pu.ptr, g_pu.len, g_pu.calls)
+__CPROVER_assigns(!g_pu.ok : g_last_error, g_raise_count)
+__CPROVER_ensures(g_pu.calls == OLD(g_pu.calls) + 1 && g_pu.len == cursor.len && g_pu.ptr == cursor.ptr)
+__CPROVER_ensures(RET == (g_pu.ok ? AWS_OP_SUCCESS : AWS_OP_ERR))
+__CPROVER_ensures(g_pu.ok ==> *dst == g_pu.val)
+__CPROVER_ensures(!g_pu.ok ==> g_raise_count == OLD(g_raise_count) + 1)
 ;
 
 /* ---- shapes */
@@ -64,27 +56,25 @@ __CPROVER_ensures(!g_pu_ok ==> g_raise_count == OLD(g_raise_count) + 1)
       (v).len <= N_ - ((size_t)__CPROVER_POINTER_OFFSET((v).ptr) - (size_t)__CPROVER_POINTER_OFFSET(S_))))
 /* the cursor afterwards is S[k, N) */
 #define STR_AT(k) (str->len == N_ - (k) && (S_ == NULL ? str->ptr == NULL : PEQ(str->ptr, S_ + (k))))
-/* "f is the index of the first c in S[lo, hi)" / "no c in S[lo, hi)"  (witness lo + g_m) */
-#define IS_FIRST_AT(c, f, lo, hi) ((f) >= (lo) && (f) < (hi) && TXT(f) == (c) && (g_m < (f) - (lo) ==> TXT((lo) + g_m) != (c)))
-#define NONE_IN(c, lo, hi) (g_m < (hi) - (lo) ==> TXT((lo) + g_m) != (c))
 
 #define PARSER_REQ                                                                                                     \
     __CPROVER_requires(__CPROVER_is_fresh(parser, sizeof(*parser)))                                                    \
     __CPROVER_requires(__CPROVER_is_fresh(parser->uri, sizeof(struct aws_uri)))                                        \
-    __CPROVER_requires(CUR_OK(str))
+    __CPROVER_requires(CUR_OK(str))                                                                                    \
+    __CPROVER_requires(g_mc_n == 0)
 #define RAISED (g_raise_count == OLD(g_raise_count) + 1 && g_last_error == AWS_ERROR_MALFORMED_INPUT_STRING)
 #define NOT_RAISED (g_raise_count == OLD(g_raise_count) && g_last_error == OLD(g_last_error))
 
 /* ------------------------------------------------------------------ scheme
- * c = first ':' of the remaining text.  A scheme is recognised iff c exists and is followed by '/'; then it must be
- * followed by "//", else MALFORMED.  Otherwise nothing but the state changes. */
-#define SCH_C FIRST(':')
+ * One search: the first ':' of the remaining text, c.  A scheme is recognised iff c exists and is followed by '/';
+ * then it must be followed by "//", else MALFORMED.  Otherwise nothing but the state changes. */
+#define SCH_C MC(0)
 #define SCH_FOUND (SCH_C != NONE && SCH_C + 1 < N_ && TXT(SCH_C + 1) == '/')
 #define SCH_WELL (SCH_C + 2 < N_ && TXT(SCH_C + 2) == '/')
 static void s_parse_scheme(struct uri_parser *parser, struct aws_byte_cursor *str)
 PARSER_REQ
-__CPROVER_assigns(parser->state, parser->uri->scheme, str->ptr, str->len, g_first[(uint8_t)':'], g_last_error, g_raise_count)
-__CPROVER_ensures(SCH_C == NONE ? NONE_IN(':', 0, N_) : IS_FIRST_AT(':', SCH_C, 0, N_))
+__CPROVER_assigns(parser->state, parser->uri->scheme, str->ptr, str->len, g_mc_n, g_mc[0], g_last_error, g_raise_count)
+__CPROVER_ensures(g_mc_n == 1 && MC_IS(0, ':', 0, N_))
 __CPROVER_ensures(!SCH_FOUND ==> parser->state == ON_AUTHORITY && SUB_SAME(parser->uri->scheme) && STR_AT(0) && NOT_RAISED)
 __CPROVER_ensures(SCH_FOUND ==> SUB_IS(parser->uri->scheme, 0, SCH_C))
 __CPROVER_ensures(SCH_FOUND && SCH_WELL ==> parser->state == ON_AUTHORITY && STR_AT(SCH_C + 3) && NOT_RAISED)
@@ -92,16 +82,16 @@ __CPROVER_ensures(SCH_FOUND && !SCH_WELL ==> parser->state == ERROR && STR_AT(SC
 ;
 
 /* ------------------------------------------------------------------ path
- * path = remaining text up to the first '?' (or all of it); path_and_query = all of it; never an error. */
+ * One search: the first '?', q.  path = remaining text up to q (or all of it); path_and_query = all of it; never an error. */
 static void s_parse_path(struct uri_parser *parser, struct aws_byte_cursor *str)
 PARSER_REQ
-__CPROVER_assigns(parser->state, parser->uri->path_and_query, parser->uri->path, str->ptr, str->len, g_first[(uint8_t)'?'], g_last_error, g_raise_count)
+__CPROVER_assigns(parser->state, parser->uri->path_and_query, parser->uri->path, str->ptr, str->len, g_mc_n, g_mc[0], g_last_error, g_raise_count)
+__CPROVER_ensures(g_mc_n == 1 && MC_IS(0, '?', 0, N_))
 __CPROVER_ensures(parser->uri->path_and_query.len == N_ && parser->uri->path_and_query.ptr == S_)
-__CPROVER_ensures(parser->uri->path.ptr == S_ && parser->uri->path.len <= N_)
+__CPROVER_ensures(parser->uri->path.ptr == S_ && parser->uri->path.len == (MC(0) == NONE ? N_ : MC(0)))
 __CPROVER_ensures(STR_AT(parser->uri->path.len))
-__CPROVER_ensures(parser->state == FINISHED || parser->state == ON_QUERY_STRING)
-__CPROVER_ensures(parser->state == FINISHED ==> parser->uri->path.len == N_ && NONE_IN('?', 0, N_))
-__CPROVER_ensures(parser->state == ON_QUERY_STRING ==> IS_FIRST_AT('?', parser->uri->path.len, 0, N_))
+__CPROVER_ensures(parser->state == (MC(0) == NONE ? FINISHED : ON_QUERY_STRING))
+__CPROVER_ensures(parser->state == ON_QUERY_STRING ==> str->len > 0 && str->ptr[0] == '?')
 __CPROVER_ensures(NOT_RAISED)
 ;
 
@@ -119,78 +109,37 @@ __CPROVER_ensures(SUB_IS(parser->uri->query_string, 1, N_ - 1))
 
 
 /* ------------------------------------------------------------------ authority  (RFC 3986 3.2: [ userinfo "@" ] host [ ":" port ])
- * A    = length of the authority = index of the first '/' or '?' of the remaining text, or N;
- * AT   = index of the first '@' inside the authority (user-info present) or NONE;  R0 = start of host[:port];
- * V6   = host starts with '['; BR = index (from R0) of the first ']'; PC = index (from the port search start PS) of the
- *        first ':' at or after PS, where PS = R0 (+ BR for a bracketed host).
- * The numeric value of the port text is abstract here (g_pu_ok/g_pu_val, see uri_parse_u64_contract). */
+ * Contract used where the state machine is composed (and for C04): memory safety, every stored view lies in the remaining
+ * text, the cursor advances by exactly the authority, state/hand-over, error <=> MALFORMED raised.
+ * The exact values of all components (which search results they follow from) are checked by unit parse_authority_exact,
+ * whose harness evaluates the specification with local variables (as one contract the expression blows the back end up). */
 #define AU (parser->uri)
 #define AU_A (AU->authority.len)
-#define AU_AT FIRST('@')
-#define AU_R0 (AU_AT == NONE ? (size_t)0 : AU_AT + 1)
-#define AU_RL (AU_A - AU_R0)
-#define AU_V6 (AU_RL > 0 && TXT(AU_R0) == '[')
-#define AU_BR FIRST(']')
-#define AU_OKBR (!(AU_V6 && AU_BR == NONE))
-#define AU_PS (AU_V6 ? AU_R0 + AU_BR : AU_R0)
-#define AU_PC FIRST(':')
-#define AU_PCA (AU_PS + AU_PC)
-#define AU_PL (AU_A - AU_PCA - 1)
 #define AU_ERR (parser->state == ERROR)
-#define AU_PORT_OK (g_pu_ok && g_pu_val <= UINT32_MAX)
 #define SAME_OR_IN(v) (SUB_SAME(v) || SUB_IN(v))
 static void s_parse_authority(struct uri_parser *parser, struct aws_byte_cursor *str)
 PARSER_REQ
-__CPROVER_requires(g_pu_calls == 0)
-__CPROVER_assigns(parser->state, g_last_error, g_raise_count)
-__CPROVER_assigns(g_first[(uint8_t)'/'], g_first[(uint8_t)'?'], g_first[(uint8_t)'@'], g_first[(uint8_t)':'], g_first[(uint8_t)']'])
-__CPROVER_assigns(g_pu_ptr, g_pu_len, g_pu_calls)
-__CPROVER_assigns(str->len > 0 : str->ptr, str->len, parser->uri->authority, parser->uri->path, parser->uri->path_and_query,
-                  parser->uri->userinfo, parser->uri->user, parser->uri->password, parser->uri->host_name, parser->uri->port)
+__CPROVER_requires(g_pu.calls == 0)
+/* coarse write set (each further target multiplies the frame checks of every store in the body); what must not change
+ * inside *parser->uri is stated as postconditions instead */
+__CPROVER_assigns(parser->state, *parser->uri, *str, g_last_error, g_raise_count, g_mc_n, __CPROVER_object_whole(g_mc), g_pu)
+#define AU_KEPT(f) (AU->f == OLD(AU->f))
+__CPROVER_ensures(AU_KEPT(self_size) && AU_KEPT(allocator) && AU_KEPT(uri_str.len) && AU_KEPT(uri_str.buffer) && AU_KEPT(uri_str.capacity) &&
+                  AU_KEPT(uri_str.allocator) && SUB_SAME(AU->scheme) && SUB_SAME(AU->query_string) && parser->uri == OLD(parser->uri))
+__CPROVER_ensures(N_ == 0 ==> STR_AT(0) && SUB_SAME(AU->authority) && SUB_SAME(AU->userinfo) && SUB_SAME(AU->user) && SUB_SAME(AU->password) &&
+                  SUB_SAME(AU->host_name) && SUB_SAME(AU->path) && SUB_SAME(AU->path_and_query) && AU_KEPT(port))
 /* empty remaining text: MALFORMED */
 __CPROVER_ensures(N_ == 0 ==> AU_ERR && RAISED)
 /* C04: whatever is stored is a view into the remaining text */
 __CPROVER_ensures(SAME_OR_IN(AU->authority) && SAME_OR_IN(AU->userinfo) && SAME_OR_IN(AU->user) && SAME_OR_IN(AU->password) &&
                   SAME_OR_IN(AU->host_name) && SAME_OR_IN(AU->path) && SAME_OR_IN(AU->path_and_query))
-/* extent of the authority */
 __CPROVER_ensures(N_ > 0 ==> AU->authority.ptr == S_ && AU_A <= N_ && STR_AT(AU_A))
-__CPROVER_ensures(N_ > 0 && AU_A == N_ ==> NONE_IN('/', 0, N_) && NONE_IN('?', 0, N_) &&
-                  AU->path.ptr == NULL && AU->path.len == 0 && AU->path_and_query.ptr == NULL && AU->path_and_query.len == 0)
-__CPROVER_ensures(N_ > 0 && AU_A < N_ ==> (TXT(AU_A) == '/' || TXT(AU_A) == '?') && SUB_SAME(AU->path) && SUB_SAME(AU->path_and_query))
-__CPROVER_ensures(N_ > 0 && AU_A < N_ ==> NONE_IN('/', 0, AU_A))
-/* RFC 3986 3.2: "The authority component is ... terminated by the next slash, question mark, or number sign, or by the end" */
-__CPROVER_ensures(N_ > 0 && AU_A < N_ ==> NONE_IN('?', 0, AU_A))
-__CPROVER_ensures(N_ > 0 && !AU_ERR ==> parser->state == (AU_A == N_ ? FINISHED : (TXT(AU_A) == '/' ? ON_PATH : ON_QUERY_STRING)))
-/* empty authority: nothing else is set */
-__CPROVER_ensures(N_ > 0 && AU_A == 0 ==> !AU_ERR && NOT_RAISED && SUB_SAME(AU->userinfo) && SUB_SAME(AU->user) &&
-                  SUB_SAME(AU->password) && SUB_SAME(AU->host_name) && AU->port == OLD(AU->port))
-/* user-info */
-__CPROVER_ensures(N_ > 0 && AU_A > 0 ==> (AU_AT == NONE ? NONE_IN('@', 0, AU_A) : IS_FIRST_AT('@', AU_AT, 0, AU_A)))
-__CPROVER_ensures(N_ > 0 && AU_A > 0 && AU_AT == NONE ==> SUB_SAME(AU->userinfo) && SUB_SAME(AU->user) && SUB_SAME(AU->password))
-__CPROVER_ensures(N_ > 0 && AU_A > 0 && AU_AT != NONE ==> SUB_IS(AU->userinfo, 0, AU_AT) && AU->user.ptr == S_ && AU->user.len <= AU_AT)
-__CPROVER_ensures(N_ > 0 && AU_A > 0 && AU_AT != NONE && AU->user.len == AU_AT ==> NONE_IN(':', 0, AU_AT) && SUB_SAME(AU->password))
-__CPROVER_ensures(N_ > 0 && AU_A > 0 && AU_AT != NONE && AU->user.len < AU_AT ==> IS_FIRST_AT(':', AU->user.len, 0, AU_AT) &&
-                  SUB_IS(AU->password, AU->user.len + 1, AU_AT - AU->user.len - 1))
-/* bracketed host without closing bracket: MALFORMED, host and port untouched */
-__CPROVER_ensures(N_ > 0 && AU_A > 0 && AU_V6 ==> (AU_BR == NONE ? NONE_IN(']', AU_R0, AU_A) : IS_FIRST_AT(']', AU_R0 + AU_BR, AU_R0, AU_A)))
-__CPROVER_ensures(N_ > 0 && AU_A > 0 && !AU_OKBR ==> AU_ERR && RAISED && SUB_SAME(AU->host_name) && AU->port == OLD(AU->port))
-/* port delimiter = first ':' of host[:port], after the closing bracket for a bracketed host */
-__CPROVER_ensures(N_ > 0 && AU_A > 0 && AU_OKBR ==> (AU_PC == NONE ? NONE_IN(':', AU_PS, AU_A) : IS_FIRST_AT(':', AU_PCA, AU_PS, AU_A)))
-/* no port */
-__CPROVER_ensures(N_ > 0 && AU_A > 0 && AU_OKBR && AU_PC == NONE ==> AU->port == 0 && !AU_ERR && NOT_RAISED && g_pu_calls == 0)
-__CPROVER_ensures(N_ > 0 && AU_A > 0 && !AU_V6 && AU_PC == NONE ==> SUB_IS(AU->host_name, AU_R0, AU_RL))
-__CPROVER_ensures(N_ > 0 && AU_A > 0 && AU_V6 && AU_OKBR && AU_PC == NONE && AU_BR == AU_RL - 1 ==> SUB_IS(AU->host_name, AU_R0 + 1, AU_RL - 2))
-/* port present */
-__CPROVER_ensures(N_ > 0 && AU_A > 0 && !AU_V6 && AU_PC != NONE ==> SUB_IS(AU->host_name, AU_R0, AU_PC))
-__CPROVER_ensures(N_ > 0 && AU_A > 0 && AU_V6 && AU_OKBR && AU_PC == 1 ==> SUB_IS(AU->host_name, AU_R0 + 1, AU_BR - 1))
-__CPROVER_ensures(N_ > 0 && AU_A > 0 && AU_OKBR && AU_PC != NONE && AU_PL == 0 ==> AU->port == 0 && !AU_ERR && NOT_RAISED && g_pu_calls == 0)
-__CPROVER_ensures(N_ > 0 && AU_A > 0 && AU_OKBR && AU_PC != NONE && AU_PL > 0 ==>
-                  g_pu_calls == 1 && g_pu_ptr == S_ + (AU_PCA + 1) && g_pu_len == AU_PL)
-__CPROVER_ensures(N_ > 0 && AU_A > 0 && AU_OKBR && AU_PC != NONE && AU_PL > 0 && AU_PORT_OK ==>
-                  AU->port == (uint32_t)g_pu_val && !AU_ERR && NOT_RAISED)
-__CPROVER_ensures(N_ > 0 && AU_A > 0 && AU_OKBR && AU_PC != NONE && AU_PL > 0 && !AU_PORT_OK ==>
-                  AU_ERR && AU->port == OLD(AU->port) && g_last_error == AWS_ERROR_MALFORMED_INPUT_STRING &&
-                  g_raise_count == OLD(g_raise_count) + (g_pu_ok ? 1 : 2))
+__CPROVER_ensures(parser->state == FINISHED || parser->state == ON_PATH || parser->state == ON_QUERY_STRING || parser->state == ERROR)
+__CPROVER_ensures(parser->state == FINISHED ==> str->len == 0)
+/* hand-over to the next state: the cursor stands on the delimiter */
+__CPROVER_ensures(parser->state == ON_PATH ==> str->len > 0 && str->ptr[0] == '/')
+__CPROVER_ensures(parser->state == ON_QUERY_STRING ==> str->len > 0 && str->ptr[0] == '?')
+__CPROVER_ensures(AU_ERR ? g_raise_count > OLD(g_raise_count) && g_last_error == AWS_ERROR_MALFORMED_INPUT_STRING : NOT_RAISED)
 ;
 
 #endif
